@@ -117,6 +117,14 @@ def step (st : DState) (toks : List String) : DState × String :=
     match nid.toNat? with
     | some nid => ({ st with node := st.node.recvToken nid }, "ok")
     | none => bad
+  | ["maysend", now, ts] =>
+    match now.toNat? with
+    | some now =>
+      let recv : List (Nat × Nat) := match ts.toNat? with
+        | some t => [(7, t)]
+        | none => []
+      (st, toString (({ Node.init 0 with now := now, recv := recv } : Node).maySendStore 7))
+    | none => bad
   | ["ntok"] => (st, toString st.node.recv.length)
   | ["nsecrets"] => (st, toString st.node.nextSecret)
   | ["ping", nid] =>
